@@ -41,6 +41,10 @@ pub fn run(v: &serde_json::Value, rep: &mut Report) -> Result<(), String> {
     let ns = uuid::Uuid::parse_str("6ba7b810-9dad-11d1-80b4-00c04fd430c8").unwrap();
     let mut level = PriceLevel::new(price);
     let mut twin: Option<(PriceLevel, UuidGenerator)> = None; // restored copy run in lock-step (C11)
+    // true when, at the moment of the snapshot, the listing order WAS the queue order: then the proved half of C11
+    // applies (lemma_c11_listing_is_queue_order + from_snapshot hands out in listing order) and any later divergence
+    // of the restored copy is a new violation, not the known finding KF-C11
+    let mut twin_comparable = false;
     let generator = UuidGenerator::new(ns);
     // executable form of the PROVED queue contracts (pop = head of prio, push appends a ticket, remove leaves
     // tickets alone): the ticket list is modelled, the live orders are read back from the real level
@@ -139,7 +143,10 @@ pub fn run(v: &serde_json::Value, rep: &mut Report) -> Result<(), String> {
                     let r2 = t.match_order(qty, taker, tg);
                     let a: Vec<(OrderId, u64)> = txs.iter().map(|t| (t.maker_order_id, t.quantity)).collect();
                     let b: Vec<(OrderId, u64)> = r2.transactions.as_vec().iter().map(|t| (t.maker_order_id, t.quantity)).collect();
-                    if a != b || r2.remaining_quantity != r.remaining_quantity { rep.violation("C11", "restore.same_makers_same_sequence", format!("step={step} original makers={a:?} restored makers={b:?}")); }
+                    if a != b || r2.remaining_quantity != r.remaining_quantity {
+                        rep.violation("C11", "restore.same_makers_same_sequence", format!("step={step} original makers={a:?} restored makers={b:?}"));
+                        if twin_comparable { rep.violation("C11", "restore.same_trading_when_listing_is_queue_order", format!("step={step} the snapshot listed the orders in queue order, yet original makers={a:?} restored makers={b:?}")); }
+                    }
                 }
             }
             "cancel" | "update_price" | "update_qty" | "update_price_qty" | "replace" => {
@@ -197,6 +204,12 @@ pub fn run(v: &serde_json::Value, rep: &mut Report) -> Result<(), String> {
                 if a != b || restored.price() != level.price() || restored.visible_quantity() != level.visible_quantity() || restored.hidden_quantity() != level.hidden_quantity() || restored.order_count() != level.order_count() {
                     rep.violation("C10", "restore.same_content", format!("step={step}: restored level lists {} orders / aggregates ({}, {}, {}), original {} / ({}, {}, {})", b.len(), restored.visible_quantity(), restored.hidden_quantity(), restored.order_count(), a.len(), level.visible_quantity(), level.hidden_quantity(), level.order_count()));
                     rep.violation("C11", "restore.same_content", format!("step={step}: the restored level does not hold the same orders as the original"));
+                }
+                {
+                    let mut seen: Vec<OrderId> = vec![];
+                    for t in tickets.iter() { if a.contains_key(t) && !seen.contains(t) { seen.push(*t); } }
+                    let listed: Vec<OrderId> = level.iter_orders().iter().map(|o| o.id()).collect();
+                    twin_comparable = seen == listed;
                 }
                 if name == "restore" { tickets = level.iter_orders().iter().map(|o| o.id()).collect(); level = restored; } else { twin = Some((restored, UuidGenerator::new(ns))); }
             }
